@@ -6,7 +6,8 @@ VALUES = {
     b'length': [b'0', b'-1', b'-0', b'abc', b'1.5', b'99999999999999999999', b'1e3', b'007', b'1_0', b'x/y', b'2147483648'],
     b'indent': [b'x', b'1.5', b'-1', b'99999999999', b'4294967296', b'0', b'007', b'dos'],
     b'encoding': [b'nope', b'base64', b'rot13', b'undefined', b'idna', b'123', b'utf-99', b'hex', b'zlib',
-                  b'utf-16', b'utf-32-be', b'ascii', b'cp037', b'unicode_escape', b'punycode', b'utf-7', b'-'],
+                  b'utf-16', b'utf-32-be', b'ascii', b'cp037', b'unicode_escape', b'punycode', b'utf-7', b'-',
+                  b'437', b'1252', b'8859', b'646', b'936', b'0', b'-1'],
     b'line_endings': [b'mac', b'DOS', b'1', b'unix', b'dos', b'x'],
     b'format': [b'yaml', b'JSON', b'1', b'xml'],
     b'version': [b'2.0', b'1', b'1.0.0', b'x', b'10'],
